@@ -101,7 +101,7 @@ CLAIMED = {
             "metadata = BE16(mm payload length) || coinbase hash (hash recomputed independently from the full "
             "coinbase), brother count/sorting/permutation, and 0/1 exactly on total/partial success.",
             "the RLP model is tied to pyrlp by the correspondence streams (incl. headers on the length-form "
-            "boundaries); 0/1 exactly on total/partial success is decided by correspondence + oracle; "
+            "boundaries); the 'only when' half of '0/1 exactly on total/partial success' is a theorem (success_only_with_ok_codes, reply_zero_one_iff), the 'always when' half is decided by correspondence + oracle; "
             "keccak/SHA-256 uninterpreted"),
     "C06": ("Lean theorems about the chain walk for paths of any length: the target is reported valid iff every "
             "link on its path verifies against its certifier (root of trust for the topmost one); otherwise the "
